@@ -4,6 +4,7 @@
 From Coq Require Import List ZArith NArith String Bool Lia.
 From SCC Require Import Base.Sexp Lang.CoreSyn Model.Backend Model.Uniquify Model.FocusCheck Proof.CoreInd
      Proof.SubstProof Proof.UniquifyProof Proof.FocusKont Proof.UqSubst Proof.UqAeq.
+From SCC Require Import Model.FocusGuard.
 Import ListNotations.
 Open Scope list_scope.
 Open Scope N_scope.
